@@ -66,3 +66,60 @@ _add(
     technique=('deterministic simulation: seeded edit histories, direct-call '
                'oracle (CallModel), shrinking + replay'),
 )
+
+_BUILD_RVS = REAL + ('stub: configured callables (fresh per run, consult the '
+                     'fault plan), hostile __repr__ objects, TempBox node type')
+_add(
+    'C05', machine='build', level='fault_enumeration',
+    tiers={'quick': {'count': 12000, 'budget_s': 45},
+           'thorough': {'count': 600000, 'budget_s': 800}},
+    rule=('seeded random DAG (<= 12 nodes + optional chain of depth 20-60; '
+          'Config/Partial, lists, tuples, dicts, named tuples, TempBox, shared '
+          'nodes and containers, equal-but-distinct twins); EVERY Config node '
+          'of the DAG is made the failing node in turn (exhaustive over crash '
+          'points of that DAG) with the exception shape / format-fault of the '
+          'run, each followed by a fault-free build; plus a nested-build fault; '
+          'non-trivial = DAG with >= 2 Buildables; distinct = distinct DAG hash'),
+    real_vs_stub=_BUILD_RVS,
+    assumptions=['the failing callable is identified by its unique uid '
+                 'argument (twins share a uid; any twin is accepted as path '
+                 'target)',
+                 'exception shapes are the 18 listed in fsim/stubmod.py'],
+    required_probes=['path_checked', 'fault_free_builds'],
+    level_text=('fault enumeration: for every generated DAG every Config node '
+                'fails once (crash point enumeration is exhaustive per DAG; '
+                'DAGs, exception shapes and format faults are sampled by seed), '
+                'seven oracle clauses fingerprinted separately'),
+    design_ref='DESIGN.md 3 (C05)',
+    level_note=('trusted: eval("root"+path) with plain Python as the path '
+                'resolver, canon, the stub recorder; three degraded exception '
+                'shape classes are listed as known findings'),
+    technique=('deterministic simulation with fault injection: exhaustive '
+               'failing-node enumeration per seeded DAG, hostile __repr__ and '
+               'nested-build faults, invocation-history oracle, replay'),
+)
+_add(
+    'C02', machine='build', level='exploration',
+    tiers={'quick': {'count': 12000, 'budget_s': 45},
+           'thorough': {'count': 600000, 'budget_s': 800}},
+    rule=('same DAGs as C05; two fault-free builds each: recorded invocation '
+          'history checked for exactly-once and dependencies-first, built graph '
+          'mirrored against the config graph by identity, the two builds '
+          'share no built object; the trace rules are re-checked on the prefix '
+          'before every injected failure; non-trivial / distinct as C05'),
+    real_vs_stub=_BUILD_RVS,
+    assumptions=['direct bottom-up evaluation with one call per node instance '
+                 'is the reference for the built graph'],
+    required_probes=['fault_free_builds', 'tempbox_in_dag', 'deep_chain',
+                     'equal_but_distinct_nodes'],
+    level_text=('history check over the recorded invocation log of the C05 '
+                'engine (fault-free arm and failure prefixes); the identity '
+                'clauses are a graph comparison that comes for free from the '
+                'same runs'),
+    design_ref='DESIGN.md 4 (C02)',
+    level_note=('trusted: canon, mirror walk, stub recorder; exactly-once and '
+                'ordering are trace properties, the identity clauses alone '
+                'would be N/A for this technique'),
+    technique=('deterministic simulation: seeded DAGs, recorded invocation '
+               'history checked against a direct-evaluation reference, replay'),
+)
